@@ -810,6 +810,10 @@ def explore(res, tier, seed, model_ok=True):
                 'exhaustive grid: burst size {16383,16384,16385,32768,65535,65536,65537,131071,131072,131073} x transport x gap; '
                 'plus real loopback TCP and TLS echo rounds; non-trivial = some arrival carries more than one frame, or exceeds a record / the buffer, or a timeout separates arrivals; '
                 'distinct by (transport, poll, messages, arrivals)')
+    # every platform selector on a real transport (TCP loopback / AF_UNIX pairs; connections ended by FIN / RST at several points):
+    # whatever was written completely before an orderly end is delivered, the run ends with Disconnected (harness/realsock.py, oracle only)
+    import realsock
+    realsock.explore(res, tier)
     cases = corpus() + length_field_cases() + closing_cases(rng, 12 if tier == 'quick' else 150)
     bursts = [TLS_REC - 1, TLS_REC, TLS_REC + 1, 2 * TLS_REC, BUF - 1, BUF, BUF + 1, 2 * BUF - 1, 2 * BUF, 2 * BUF + 1]
     gaps = [0, 6] if tier == 'quick' else [0, 1, 5, 6]
